@@ -29,10 +29,27 @@ def tl_obl(H):
     return f
 
 
+LIMITS_SPECIAL = {"quick": [41, 256], "thorough": [41, 47, 83, 256, 257, 1000]}
+
+
 def run_tl(R, cfg, T, over=None):
     H = base.get(cfg, time_limit=T, **(over or {}))
     if H.T != T:
         R.structural(f"constructor honours time_limit={T}", False, {"config": cfg, "env.time_limit": H.T, "requested": T})
+    # the step counter the GENERATOR puts into the state must be able to count up to T: the inductive step below starts from a harness
+    # state whose counter has the harness' own dtype, so a narrow counter created by reset (uint8 wraps at 256) is decided on the real
+    # reset's output types (IR fact, holds for every key)
+    try:
+        import jax
+        import numpy as np
+        st_shape, _ = jax.eval_shape(H.env.reset, jax.random.PRNGKey(0))
+        for path, leaf in jax.tree_util.tree_leaves_with_path(st_shape):
+            pth = jax.tree_util.keystr(path)
+            if pth.endswith("step_count") and np.dtype(leaf.dtype).kind in "iu":
+                R.structural(f"T={T}: reset{pth} ({np.dtype(leaf.dtype)}) can count up to the time limit", int(np.iinfo(np.dtype(leaf.dtype)).max) >= int(T),
+                             {"config": cfg, "time_limit": T, "leaf": pth, "dtype": str(np.dtype(leaf.dtype)), "dtype_max": int(np.iinfo(np.dtype(leaf.dtype)).max)})
+    except Exception as e:  # noqa
+        R.note(f"{cfg}: reset output types not available ({type(e).__name__})")
     if H.BMC:
         from checks import bmc
         return bmc.run(R, H, tl_obl(H))
@@ -96,6 +113,10 @@ def jobs(tier, seed):
         if cls.TIME_LIMIT:
             for cfg in cfgs:
                 for T in LIMITS[tier]:
+                    js.append((f"{cfg}/T={T}", "checks.C11", "run_tl", {"cfg": cfg, "T": T}))
+            # limits whose arithmetic is special: 41 and 83 (step_count * (1/T) falls short of 1 in float32), 256 (an 8-bit counter wraps)
+            for T in LIMITS_SPECIAL[tier]:
+                for cfg in list(dict.fromkeys(cls.QUICK[:1] + list(getattr(cls, "C11_SPECIAL_CFGS", [])))):
                     js.append((f"{cfg}/T={T}", "checks.C11", "run_tl", {"cfg": cfg, "T": T}))
             for cfg, T, over in getattr(cls, "C11_EXTRA", {}).get(tier, []):
                 # harness-declared extra configurations in which the limit is decoupled from another size that happens to coincide
